@@ -237,7 +237,20 @@ def conditions(tier):
             else:
                 combos = (('text', False), ('verbatim', True))
             call = 'body_filter(s, %r, False, (None,), (%r,), %r)' % (name, bool(k % 2), combos)
-        conds.append(Cond('tpl_' + name, 's: str', tpl_pre(clean), call, timeout=T_, cost=2, twin=False,
+        extra = []
+        if quick:
+            # at most two free holes per template in the quick tier (one for the equation-environment template, whose paths
+            # cost ~9 s each); the hole between a comment and the next argument of \\frac becomes that argument, and the
+            # fraction is rendered with string formatting of the symbolic character (realised value by value), so that
+            # hole ranges over {space, tab, x, .} only
+            idx = [i for i, ch in enumerate(clean) if ch == '?']
+            keep = 1 if name == 'm_env' else 2
+            rot = k % max(1, len(idx))
+            free = set((idx[rot:] + idx[:rot])[:keep])
+            extra = ['s[%d] == chr(120)' % i for i in idx if i not in free]
+            if name == 'c_macro_arg2':
+                extra.append('any(s[%d] == chr(q) for q in (32, 9, 120, 46))' % idx[0])
+        conds.append(Cond('tpl_' + name, 's: str', tpl_pre(clean) + extra, call, timeout=T_, cost=2, twin=False,
                           smoke=[dict(s=clean.replace('?', c)) for c in ('x', ' ', '\n', '.')],
                           descr='template %r (? = any character that is not one of %s); 32 option sets' % (clean, ACTIVE)))
     # fill_text re-wraps text with `re` and `textwrap`; CrossHair's model of re on symbolic strings is unfaithful (search
@@ -260,7 +273,7 @@ META = dict(
                'environment_node_to_text/chars_node_to_text/do_fill_text/_fmt_indented_block', 'tolerant parser underneath'],
     bounds=dict(quick='31 templates placing comment, formula and discarded-construct markers at top level, inside arguments, optional '
                       'arguments, between macro and argument, in environment bodies, groups, inside math, after bare macros and at end of '
-                      'input without newline, each with 1-3 free holes ranging over every character that is not LaTeX-active; every '
+                      'input without newline, each with 1-2 free holes (further holes pinned to x) ranging over every character that is not LaTeX-active (the hole that becomes an argument of \\frac: space, tab, x or .); every '
                       'template rendered under the option sets its markers are sensitive to (comment templates: keep_comments off/on; formula '
                       'templates: the 4 math modes; discarded constructs: 2 option sets; comments inside formulas: all 8) under one of the two '
                       'whitespace policies (alternating); fill_text concretely only',
